@@ -1079,7 +1079,7 @@ func handleAccessScanners(base, access parser.Scanner) parser.Scanner {
 
 func (pc ParseContext) compileRelation(ctx context.Context, b ast.Branch, c ast.Children) (rel.Expr, error) {
 	names := parseNames(c.(ast.One).Node.(ast.Branch)["names"].(ast.One).Node.(ast.Branch))
-	tuples := c.(ast.One).Node.(ast.Branch)["tuple"].(ast.Many)
+	tuples := c.(ast.One).Node.Many("tuple")
 	tupleExprs := make([][]rel.Expr, 0, len(tuples))
 	for _, tuple := range tuples {
 		exprs, err := pc.compileExprs(ctx, tuple.(ast.Branch)["v"].(ast.Many)...)
